@@ -8,12 +8,19 @@ _spec.loader.exec_module(_c01)
 
 CFG = {
     "modules": ["HumphreyModel.Props.C04", "HumphreyModel.Props.C04Ws"],
-    "rule": "generated applications with 0..4 host sub-apps x 0..6 routes and 0..2 WebSocket routes each plus the default "
+    "rule": "1200 (thorough 20000) generated applications with 0..4 host sub-apps x 0..6 routes and 0..2 WebSocket routes each plus the default "
             "sub-app, patterns from a pool of literals, prefixes, suffixes, infixes, multiple/adjacent '*', empty, "
             "non-ASCII, with shadowing (repeated patterns); every handler answers with its own id; 14 requests per "
             "application over Host {absent, exact, wildcard-matching, with port, other case, non-matching} x paths "
             "{matching several, one or no routes; with and without query} incl. WebSocket upgrades, each through the real "
-            "client_handler. Judged by Spec.checkConn (the response is the one the FIRST matching route of the FIRST "
+            "client_handler. LARGE applications: 100 / 257 / 1000 (thorough: 100, 128, 255-257, 1000, 1024, 4096) host "
+            "sub-apps with the matching host first / last / in the middle / absent, the same counts and positions for the "
+            "routes of the matching sub-app, of the default sub-app and for WebSocket routes, optionally a later route / a "
+            "later host that matches too (must not be chosen); 14 requests per application (24 applications quick, 64 thorough) incl. requests aimed at filler "
+            "hosts and routes at random indices and one past the end. LONG values: Host values, paths, queries and route / "
+            "host patterns of 100, 255-257, 1000, 1024, 4096, 8192, 8193, 65536 bytes (thorough: up to 1 MiB), absorbed by "
+            "a wildcard, equal to a literal pattern, or differing from it in the last character; ASCII and two-byte units. "
+            "A quarter of the large and half of the long applications (up to 8 KiB) also run on the tokio runtime. Judged by Spec.checkConn (the response is the one the FIRST matching route of the FIRST "
             "matching host returns, else default, else 404) and compared with the model. Non-trivial = application "
             "has at least one host sub-app; distinct = distinct case line.",
     "exhaustive": False,
